@@ -1,6 +1,9 @@
 import M3d.Basic
 import M3d.Model.SolidAlg
 import M3d.Model.RectSet
+import M3d.Model.RectSetProg
+import M3d.Model.SmoothSolid
+import M3d.Model.SolidExpr
 /-!
 Line-protocol handler for C04.  Core-only.
 
@@ -10,9 +13,12 @@ Kinds (tokens after `c04`):
 * `sj <dim> <r> <d>…`, `sj2 <dim> <r> <d:nx,ny[,nz]>…`   — smooth joins: SPEC value + "every permutation agrees"
 * `sjm …`, `sj2m …`                  — the faithful closure model evaluated on every permutation (model validation)
 * `sjf <dim> <rhex> <dhex>…`, `sj2f <dim> <rhex> <dhex:…>…` — the same closure model executed on IEEE doubles
+* `sjb|sjb2 <dim> <r> <n> <box>… <np> <perm>… <nq> (<pt> <d>…)…` — the smooth joins as solids (bounds + closure) at many points
 * `opt|mux <dim> <n> <box>… <perm>… <nq> (<pt> <bits>)…`  — Optimize / SolidMux against the plain join
+* `tree <dim> <nl> <box>… <expr> <nq> (<pt> <bits>)…`     — nests of Joined / Optimize / SolidMux / Intersected / Subtracted against the boolean formula
 * `stk <n> (<bounds> <inner>)… <nq> <pt>…`      — StackSolids / StackedSolid against the translated union
 * `rs …`                             — RectSet histories and the rect-set solid
+* `rsp <stmt>… end`                  — programs over several RectSet objects with repeated `Solid()` calls
 -/
 namespace M3d.Drv.C04
 open M3d M3d.SolidAlg
@@ -149,6 +155,8 @@ def handleSJ2F (ws : List String) : Option String := do
 
 instance : Inhabited (Box Rat) := ⟨⟨fun _ => 0, fun _ => 0⟩⟩
 instance : Inhabited (Solid Rat) := ⟨⟨default, fun _ => false⟩⟩
+instance : Inhabited (Sdf Rat) := ⟨⟨default, fun _ => 0⟩⟩
+instance : Inhabited (NSdf Rat) := ⟨⟨default, fun _ => (0, fun _ => 0)⟩⟩
 
 /-! ### scenes of bounded operands: Optimize and SolidMux -/
 
@@ -214,6 +222,127 @@ def handleScene (mux : Bool) (ws : List String) : Option String := do
       if m.contains dim p != spec || m.allContains dim p != bits || it != specIdx then some "model-ne-spec"
       else some s!"{boolStr spec}:{strOfBits bits}:{showNats specIdx}:{specIdx.length}"
   some (" ".intercalate outs)
+
+/-! ### smooth joins as solids (`sjb`, `sjb2`)
+
+`<dim> <r> <n> (<lo> <hi>)×n <np> (<n indices>)×np <nq> (<pt> <d_0 … d_{n-1}>)×nq`; for `sjb2` each `d_i` is
+`d:nx,ny[,nz]`.  Answer `V=<bits> P=1`: V = "inside the joint bounds grown by r, and `smoothSpec` of the
+distances at the point" (`smoothSolid_eq_spec`, `smoothSolidV2_eq_spec`); P = every listed operand order
+gives the same solid (`smoothSolid_perm`, `smoothSolidV2_perm`) — re-checked on the faithful model. -/
+
+def handleSJB (v2 : Bool) (ws : List String) : Option String := do
+  let dim :: r :: n :: ws := ws | none
+  let dim ← dim.toNat?
+  let r ← parseRat r
+  let n ← n.toNat?
+  if n = 0 then none
+  let (boxes, ws) ← parseBoxes dim n ws
+  let np :: ws := ws | none
+  let np ← np.toNat?
+  let permNats ← (ws.take (np * n)).mapM (·.toNat?)
+  if permNats.length ≠ np * n then none
+  let ws := ws.drop (np * n)
+  let perms := (List.range np).map fun k => (permNats.drop (k * n)).take n
+  if !(perms.all (isPermOfRange n)) then none
+  let nq :: ws := ws | none
+  let nq ← nq.toNat?
+  if ws.length ≠ nq * (dim + n) then none
+  let zero : Pt Rat := fun _ => 0
+  let outs ← (List.range nq).mapM fun q => do
+    let toks := (ws.drop (q * (dim + n))).take (dim + n)
+    let (pc, dts) ← takeRats dim toks
+    let p : Pt Rat := ptOfList pc
+    let es ← dts.mapM fun t => if v2 then parseDN t else (parseRat t).map fun d => (d, zero)
+    let orders := (List.range n) :: perms
+    if !v2 then
+      let ops : List (Sdf Rat) := (List.range n).map fun i => ⟨boxes[i]!, fun _ => (es[i]!).1⟩
+      let spec := ((boxesJoin (boxes[0]!) (boxes.drop 1)).expand r).contains dim p && smoothSpec r (es.map (·.1))
+      let ok := orders.all fun o =>
+        let l := o.map fun i => ops[i]!
+        (smoothSolid dim r (l[0]!) (l.drop 1)).f p == spec
+      if ok then some (boolStr spec) else some "X"       -- impossible: smoothSolid_eq_spec + smoothSolid_perm
+    else
+      if !(exactOK dim es) then some "S" else
+      let ops : List (NSdf Rat) := (List.range n).map fun i => ⟨boxes[i]!, fun _ => es[i]!⟩
+      let spec := ((boxesJoin (boxes[0]!) (boxes.drop 1)).expand r).contains dim p
+        && smoothSpecV2 dim ratSqrt ratAbs r es
+      let ok := orders.all fun o =>
+        let l := o.map fun i => ops[i]!
+        (smoothSolidV2 dim ratSqrt ratAbs r (l[0]!) (l.drop 1)).f p == spec
+      if ok then some (boolStr spec) else some "X"
+  some s!"V={"".intercalate outs} P=1"
+
+/-! ### nests of combinators (`tree`)
+
+`<dim> <nl> (<lo> <hi>)×nl <expr> <nq> (<pt> <leaf bits>)×nq`, `<expr>` in prefix form: `L <i>` | `J|O|M|I <k> <expr>×k` |
+`S <expr> <expr>`.  Answer: per query the pointwise boolean formula (`nested_combinators_eq_formula`); the
+faithful bottom-up construction (identity reordering at every node — the theorem covers every reordering) is
+re-checked against it. -/
+
+/-- Shape of an expression (leaves by index). -/
+inductive Shape where
+  | leaf (i : Nat) : Shape
+  | node (op : Char) (kids : List Shape) : Shape
+
+partial def parseShape : List String → Option (Shape × List String)
+  | "L" :: i :: ws => do
+      let i ← i.toNat?
+      some (.leaf i, ws)
+  | "S" :: ws => do
+      let (a, ws) ← parseShape ws
+      let (b, ws) ← parseShape ws
+      some (.node 'S' [a, b], ws)
+  | op :: k :: ws => do
+      if !(op = "J" || op = "O" || op = "M" || op = "I") then none
+      let k ← k.toNat?
+      if k = 0 then none
+      let rec go : Nat → List String → Option (List Shape × List String)
+        | 0, ws => some ([], ws)
+        | j + 1, ws => do
+            let (e, ws) ← parseShape ws
+            let (es, ws) ← go j ws
+            some (e :: es, ws)
+      let (kids, ws) ← go k ws
+      some (.node (op.toList.headD 'J') kids, ws)
+  | _ => none
+
+partial def Shape.toExpr (leaves : List (Solid Rat)) : Shape → Option (Expr Rat)
+  | .leaf i => (leaves[i]?).map Expr.leaf
+  | .node op kids => do
+      let es ← kids.mapM (Shape.toExpr leaves)
+      let rec mk : List (Expr Rat) → Option (Exprs Rat)
+        | [] => none
+        | [e] => some (.one e)
+        | e :: rest => (mk rest).map (Exprs.cons e)
+      match op, es with
+      | 'S', [a, b] => some (.sub a b)
+      | 'J', _ => (mk es).map Expr.join
+      | 'O', _ => (mk es).map (Expr.opt id)
+      | 'M', _ => (mk es).map (Expr.mux id)
+      | 'I', _ => (mk es).map Expr.inter
+      | _, _ => none
+
+def handleTree (ws : List String) : Option String := do
+  let dim :: nl :: ws := ws | none
+  let dim ← dim.toNat?
+  let nl ← nl.toNat?
+  if nl = 0 then none
+  let (boxes, ws) ← parseBoxes dim nl ws
+  let (shape, ws) ← parseShape ws
+  let nq :: ws := ws | none
+  let nq ← nq.toNat?
+  let qs ← parseQueries dim nl nq ws
+  let outs ← qs.mapM fun (p, bits) => do
+    let leaves : List (Solid Rat) := (List.range nl).map fun i => ⟨boxes[i]!, fun _ => bits.getD i false⟩
+    if !(leaves.all fun s => !(s.f p) || s.box.contains dim p) then some "U"   -- harness error: unbounded leaf
+    else
+    let e ← shape.toExpr leaves
+    let spec := e.eval p
+    match e.toSolid dim with
+    | none => some "D"                                   -- impossible: nested_combinators_eq_formula
+    | some s => if s.f p != spec then some "X" else some (boolStr spec)
+  -- P=1: the formula does not depend on the order of the operands of any node (any / all)
+  some s!"V={"".intercalate outs} P=1"
 
 /-! ### stacks -/
 
@@ -305,6 +434,82 @@ def handleRS (ws : List String) : Option String := do
       else boolStr spec
     some s!"R={showRects s.rects} S={showSplits s.splits} Q={"".intercalate outs}"
 
+
+/-! ### programs over RectSet objects (`rsp`)
+
+Statements: `a|r <i> <6 coords>` (`v_i.Add/Remove`), `A|R <i> <j>` (`v_i.AddRectSet/RemoveRectSet(v_j)`),
+`N <i>` (`v_i = NewRectSet()`), `S <i>` (`v_i.Solid()`, the result is kept as solid number 0, 1, …),
+`Q <k> <nq> <3·nq coords>` (query solid `k`, obtained earlier — possibly many statements ago).
+Answer: per `S` the receiver's stored rects and splits at that moment, per `Q` the SPEC bits: "some rect
+stored in the receiver when solid `k` was created contains the point"
+(`rectset_program_solid_eq_union`). -/
+
+inductive Item where
+  | sol : Item
+  | qry (k : Nat) (pts : List (V3 Rat)) : Item
+
+partial def parseProg : List String → Option (List (Cmd Rat) × List Item)
+  | ["end"] => some ([], [])
+  | "Q" :: k :: nq :: ws => do
+      let k ← k.toNat?
+      let nq ← nq.toNat?
+      let (cs, ws) ← takeRats (3 * nq) ws
+      let pts := (List.range nq).map fun q => v3Of ((cs.drop (3 * q)).take 3)
+      let (cmds, items) ← parseProg ws
+      some (cmds, .qry k pts :: items)
+  | op :: i :: ws => do
+      let i ← i.toNat?
+      if op = "a" || op = "r" then
+        let (c, ws) ← takeRats 6 ws
+        let r : Rect Rat := ⟨v3Of (c.take 3), v3Of (c.drop 3)⟩
+        let (cmds, items) ← parseProg ws
+        some ((if op = "a" then Cmd.add i r else Cmd.remove i r) :: cmds, items)
+      else if op = "A" || op = "R" then
+        let j :: ws := ws | none
+        let j ← j.toNat?
+        let (cmds, items) ← parseProg ws
+        some ((if op = "A" then Cmd.addSet i j else Cmd.removeSet i j) :: cmds, items)
+      else if op = "N" then
+        let (cmds, items) ← parseProg ws
+        some (Cmd.reset i :: cmds, items)
+      else if op = "S" then
+        let (cmds, items) ← parseProg ws
+        some (Cmd.solid i :: cmds, .sol :: items)
+      else none
+  | _ => none
+
+def handleRSP (ws : List String) : Option String := do
+  let (cmds, items) ← parseProg ws
+  let states := progStates (fun _ => RS.empty) cmds
+  let trees := runProg (fun _ => RS.empty) cmds
+  let hists := solidCalls (fun _ => Hist.new) cmds
+  let rec go : List Item → Nat → List String → Option (List String)
+    | [], _, acc => some acc.reverse
+    | .sol :: rest, nsol, acc => do
+        let s ← states[nsol]?
+        let t ← trees[nsol]?
+        match t with
+        | none => go rest (nsol + 1) ("diverges" :: acc)      -- impossible: `rectset_program_solid_eq_union`
+        | some t =>
+          if !t.wellSplitB then go rest (nsol + 1) ("tree-not-well-split" :: acc)   -- impossible, ditto
+          else go rest (nsol + 1) (s!"R={showRects s.rects} S={showSplits s.splits}" :: acc)
+    | .qry k pts :: rest, nsol, acc => do
+        if k ≥ nsol then none
+        let s ← states[k]?
+        let t ← trees[k]?
+        let h ← hists[k]?
+        let bits := pts.map fun p =>
+          let spec := s.rects.any fun r => r.contains p
+          match t with
+          | none => "D"
+          | some t =>
+            if t.contains p != spec then "X"
+            else if generic h p && h.sem p != spec then "Y"
+            else boolStr spec
+        go rest nsol (s!"Q={"".intercalate bits}" :: acc)
+  let outs ← go items 0 []
+  some (" ".intercalate ("ok" :: outs))
+
 end RS
 
 def handleAll (ws : List String) : Option String :=
@@ -317,10 +522,14 @@ def handleAll (ws : List String) : Option String :=
   | "sj2m" :: rest => handleSJ2 true rest
   | "sjf" :: rest => handleSJF rest
   | "sj2f" :: rest => handleSJ2F rest
+  | "sjb" :: rest => handleSJB false rest
+  | "sjb2" :: rest => handleSJB true rest
   | "opt" :: rest => handleScene false rest
   | "mux" :: rest => handleScene true rest
+  | "tree" :: rest => handleTree rest
   | "stk" :: rest => handleStack rest
   | "rs" :: rest => M3d.Drv.C04.RS.handleRS rest
+  | "rsp" :: rest => M3d.Drv.C04.RS.handleRSP rest
   | _ => none
 
 end M3d.Drv.C04
